@@ -36,7 +36,8 @@ def _inputs(h, weighted_opt=True):
     w = None
     if weighted:
         w = h.vec('w', n)
-        h.assume(' and '.join('w[%d] >= 0' % i for i in range(n)) + ' and ' + ' + '.join('w[%d]' % i for i in range(n)) + ' > 0', w=w)
+        # point masses accept weights of any sign; what the formulas need is a non-zero total
+        h.assume(' + '.join('w[%d]' % i for i in range(n)) + ' != 0', w=w)
     return n, x, w
 
 
@@ -125,8 +126,13 @@ def impose_spread(h):
 
 @contract('C18/normalize', ['C18'], F + '::normalize', samples=200)
 def normalize(h):
-    """numeric mass, non-negative weights with a positive total: the result sums to the requested mass"""
-    n, x, w = _inputs(h, weighted_opt=False)
+    """numeric mass, weights of ANY sign with a non-zero total: the result sums to the requested mass"""
+    n = h.choice('n', SIZES if THOROUGH else [1, 2, 3])
+    w = h.vec('w', n)
+    h.assume(' + '.join('w[%d]' % i for i in range(n)) + ' != 0', w=w)
+    import itertools
+    signs = h.choice('negative_weights', list(itertools.product([False, True], repeat=n)))     # a sign pattern per path
+    h.assume(' and '.join('w[%d] %s 0' % (i, '<' if neg else '>=') for i, neg in enumerate(signs)), w=w)
     mass = h.real('mass')
     h.assume('mass != 0', mass=mass)
     which = h.choice('fn', ['normalize', 'impose_sum'])
